@@ -18,6 +18,7 @@ CLAUSES = {
     "C04.forms.perm": 15000,       # taxon permutation permutes rows and labels together, leaves population summaries alone
     "C04.forms.split": 4000,       # marker partition: partial predictions / genic variances add up, tables concatenate
     "C04.forms.derived": 40000,   # inputs made by select/delete/adjoin/insert/concat/copy/remove/append: ploidy kept, every statistic right
+    "C04.returns": 2000,          # arrays in any memory representation of the same values are accepted (no exception) ...
     "C04.labels": 15000,           # taxa, taxa_grp of the input and trait of the model on every output matrix
     "C04.stats.var": 7000,        # var_A, var_G (population variance of the values), var_a (genic)
     "C04.stats.bulmer": 4000,      # var_A / var_a, NaN exactly when the genic variance is zero
@@ -37,6 +38,9 @@ RULE = ("model cases: seeded class-based genotype arrays (1-120 taxa incl. 49/98
         "with exact zeros and -0.0, all positive/negative/zero, single non-zero, non-zero only on fixed loci, 1e4 / 1e-4 magnitudes, "
         "per-trait mixtures; 1-4 traits; 1-3 fixed effects; additive and additive+dominance models, optional u_misc) presented as "
         "phased matrix, unphased projection and raw dosage array (int8/int64/float64), with and without taxa/taxa_grp/trait labels; "
+        "in 35% of the cases every array handed over (coefficients, intercepts, genotype calls/dosages, covariates, responses; training "
+        "sets of fit_numpy) is in another memory representation of the same values: non-native byte order, Fortran order, strided / "
+        "offset view of a larger buffer, negative strides, read-only, zero-stride broadcast, ndarray subclass; "
         "responses for R^2 as array, from_numpy object, or constructor-built object whose location/scale are not the mean/sd "
         "of its rows (raw values with location 0 / scale 1, arbitrary location+scale); "
         "one taxon permutation and one random marker partition (1-4 parts) per case; two inputs per case derived from the phased or "
@@ -183,15 +187,15 @@ def gen_geno(g, big=None):
     return n, p, ploidy, gcls, mat
 
 
-def mk_phased(mat, taxa, taxa_grp, vmeta):
+def mk_phased(mat, taxa, taxa_grp, vmeta, keep=False):
     from pybrops.popgen.gmat.DensePhasedGenotypeMatrix import DensePhasedGenotypeMatrix
-    return DensePhasedGenotypeMatrix(mat.copy(), taxa=None if taxa is None else taxa.copy(),
+    return DensePhasedGenotypeMatrix(mat if keep else mat.copy(), taxa=None if taxa is None else taxa.copy(),
                                      taxa_grp=None if taxa_grp is None else taxa_grp.copy(), **vmeta)
 
 
-def mk_unphased(dos, ploidy, taxa, taxa_grp, vmeta):
+def mk_unphased(dos, ploidy, taxa, taxa_grp, vmeta, keep=False):
     from pybrops.popgen.gmat.DenseGenotypeMatrix import DenseGenotypeMatrix
-    return DenseGenotypeMatrix(dos.astype("int8"), taxa=None if taxa is None else taxa.copy(),
+    return DenseGenotypeMatrix(dos if keep else dos.astype("int8"), taxa=None if taxa is None else taxa.copy(),
                                taxa_grp=None if taxa_grp is None else taxa_grp.copy(), ploidy=int(ploidy), **vmeta)
 
 
@@ -199,14 +203,57 @@ def sub_vmeta(vmeta, idx):
     return {k: v[idx].copy() for k, v in vmeta.items()}
 
 
-def mk_model(kind, beta, u_misc, u_a, u_d, trait):
+REPRS = ["non-native byte order", "Fortran order", "strided view of a larger buffer", "negative-stride view", "read-only",
+         "offset view of a larger buffer", "zero-stride broadcast view", "ndarray subclass view"]
+
+
+class _SubArray(numpy.ndarray):
+    """A do-nothing ndarray subclass (stands for memmap-like wrappers)."""
+
+
+def represent(g, a, rcls):
+    """The same values in another in-memory representation numpy treats as equal; always a new object."""
+    a = numpy.asarray(a)
+    if rcls == "native":
+        r = a.copy()
+    elif rcls == "non-native byte order":
+        r = a.astype(a.dtype.newbyteorder("S")) if a.dtype.itemsize > 1 else numpy.ascontiguousarray(a[..., ::-1])[..., ::-1]
+    elif rcls == "Fortran order":
+        r = numpy.asfortranarray(a.copy())
+    elif rcls == "strided view of a larger buffer":
+        big = numpy.zeros(tuple(2 * d + 1 for d in a.shape), dtype=a.dtype)
+        r = big[tuple(slice(1, 2 * d + 1, 2) for d in a.shape)]
+        r[...] = a
+    elif rcls == "negative-stride view":
+        r = a[::-1].copy()[::-1] if a.ndim == 1 or g.random() < 0.5 else a[..., ::-1].copy()[..., ::-1]
+    elif rcls == "read-only":
+        r = a.copy(); r.flags.writeable = False
+    elif rcls == "offset view of a larger buffer":
+        big = numpy.zeros((a.shape[0] + 5,) + a.shape[1:], dtype=a.dtype)
+        r = big[3:3 + a.shape[0]]
+        r[...] = a
+    elif rcls == "zero-stride broadcast view":
+        if a.ndim >= 1 and a.shape[0] > 1 and bool((a == a[:1]).all()):
+            r = numpy.broadcast_to(a[:1].copy(), a.shape)
+        else:
+            r = a.copy(); r.flags.writeable = False
+    elif rcls == "ndarray subclass view":
+        r = a.copy().view(_SubArray)
+    else:
+        raise ValueError(rcls)
+    assert r.shape == a.shape and numpy.array_equal(r, a, equal_nan=(a.dtype.kind == "f"))
+    return r
+
+
+def mk_model(kind, beta, u_misc, u_a, u_d, trait, R=None):
+    R = R or (lambda a: a.copy())
     if kind == "A":
         from pybrops.model.gmod.DenseAdditiveLinearGenomicModel import DenseAdditiveLinearGenomicModel as M
-        return M(beta=beta.copy(), u_misc=None if u_misc is None else u_misc.copy(), u_a=u_a.copy(),
+        return M(beta=R(beta), u_misc=None if u_misc is None else R(u_misc), u_a=R(u_a),
                  trait=None if trait is None else trait.copy())
     from pybrops.model.gmod.DenseAdditiveDominanceLinearGenomicModel import DenseAdditiveDominanceLinearGenomicModel as M
-    return M(beta=beta.copy(), u_misc=None if u_misc is None else u_misc.copy(), u_a=u_a.copy(),
-             u_d=None if u_d is None else u_d.copy(), trait=None if trait is None else trait.copy())
+    return M(beta=R(beta), u_misc=None if u_misc is None else R(u_misc), u_a=R(u_a),
+             u_d=None if u_d is None else R(u_d), trait=None if trait is None else trait.copy())
 
 
 PTFORMS = ["array", "array", "object/from_numpy", "object/raw values, location 0, scale 1", "object/arbitrary location+scale"]
@@ -262,12 +309,26 @@ def overlaps(a, b):
         return bool(numpy.may_share_memory(a, b))
 
 
+KEEP_REPR = [False]
+
+
 def collect(model, F, fname, ploidy, dom_ok, X, Y, has_misc, held=None):
     """Call every observable of the model on one input form; returns {name: value | Exception}.  For matrix-valued
     outputs the value is (unscale(), taxa, taxa_grp, trait).  The raw returned objects are appended to ``held``."""
     from pybrops.breed.prot.bv.TrueBreedingValue import TrueBreedingValue
     isarr = isinstance(F, numpy.ndarray)
     out = {}
+    if KEEP_REPR[0]:    # arrays carry a deliberate memory representation: hand them over untouched
+        class _AsIs:
+            def __init__(self, a):
+                self.a = a
+
+            def copy(self):
+                return self.a
+        X = _AsIs(X) if isinstance(X, numpy.ndarray) else X
+        Fc = _AsIs(F) if isarr else F
+    else:
+        Fc = F
 
     def run(name, fn):
         try:
@@ -290,16 +351,16 @@ def collect(model, F, fname, ploidy, dom_ok, X, Y, has_misc, held=None):
         _run(name, fn)
 
     kw = {"ploidy": int(ploidy)} if isarr else {}
-    run("gebv", lambda: bv(model.gebv(F.copy() if isarr else F)))
-    run("tbv", lambda: bv(TrueBreedingValue(model).estimate(None, F.copy() if isarr else F)))
+    run("gebv", lambda: bv(model.gebv(Fc.copy() if isarr else F)))
+    run("tbv", lambda: bv(TrueBreedingValue(model).estimate(None, Fc.copy() if isarr else F)))
     run("var_A", lambda: model.var_A(F))
     run("var_a", lambda: model.var_a(F, **kw))
     run("bulmer", lambda: model.bulmer(F, **kw))
     if dom_ok:
-        run("gegv", lambda: bv(model.gegv(F.copy() if isarr else F)))
+        run("gegv", lambda: bv(model.gegv(Fc.copy() if isarr else F)))
         run("var_G", lambda: model.var_G(F))
         if not has_misc:
-            run("predict", lambda: bv(model.predict(X.copy(), F.copy() if isarr else F)))
+            run("predict", lambda: bv(model.predict(X.copy(), Fc.copy() if isarr else F)))
             if Y is not None:
                 run("score", lambda: model.score(Y, X.copy(), F))
     if not isarr:
@@ -547,19 +608,50 @@ def case_model(ctx, c):
                     "model": mcls, "effect_class": ucls, "dominance_class": dcls, "ntrait": t, "nfixed": q,
                     "u_a": u_a[:6].tolist(), "beta": beta.tolist(), "dosage_head": dos[:4, :6].tolist(),
                     "labels": ["none", "taxa", "taxa+grp", "taxa(dup)+grp"][lab], "array_dtype": adt})
+    # memory representation of every array handed to the library (own random stream: leaves the case content as it was)
+    gr = ctx.rng("repr", c)
+    rcls = str(gr.choice(REPRS)) if gr.random() < 0.35 else "native"
+    KEEP_REPR[0] = rcls != "native"
+    R = (lambda a: represent(gr, a, rcls))
+    wit_r = {"case": c, "array_representation": rcls}
+    if rcls != "native":
+        icls_in += "/" + rcls
+
+    def build(what, make_repr, make_native, site):
+        """Construct with the chosen representation; a representation that is refused while native arrays of the same values
+        are accepted is a violation (the case then goes on with the native object)."""
+        if rcls == "native":
+            return make_native()
+        try:
+            obj = make_repr()
+            ctx.ok("C04.returns")
+            return obj
+        except Exception as e:
+            obj = make_native()   # raises as well -> not a matter of representation (caught by the caller)
+            ctx.raised("%s[%s]" % (site, rcls), e)
+            ctx.violation("C04.returns", site, "accepts every in-memory representation of the same values (raised %s)" % type(e).__name__,
+                          rcls, what="%s raised %s: %s" % (site, type(e).__name__, str(e)[:160]), witness=dict(wit_r, object=what), coords=coords)
+            ctx.ok("C04.returns")
+            return obj
     try:
-        model = mk_model(kind, beta, u_misc, u_a, u_d, trait)
-        pg = mk_phased(mat, taxa, taxa_grp, vmeta)
-        ug = mk_unphased(dos, ploidy, taxa, taxa_grp, vmeta)
+        model = build("model coefficients", lambda: mk_model(kind, beta, u_misc, u_a, u_d, trait, R),
+                      lambda: mk_model(kind, beta, u_misc, u_a, u_d, trait),
+                      ("DenseAdditiveLinearGenomicModel" if kind == "A" else "DenseAdditiveDominanceLinearGenomicModel") + ".__init__")
+        pg = build("phased calls", lambda: mk_phased(R(mat), taxa, taxa_grp, vmeta, keep=True), lambda: mk_phased(mat, taxa, taxa_grp, vmeta),
+                   "DensePhasedGenotypeMatrix.__init__")
+        ug = build("dosages", lambda: mk_unphased(R(dos.astype("int8")), ploidy, taxa, taxa_grp, vmeta, keep=True),
+                   lambda: mk_unphased(dos, ploidy, taxa, taxa_grp, vmeta), "DenseGenotypeMatrix.__init__")
     except Exception as e:
         ctx.raised("construct model/genotype matrix", e)
         return
-    arr = dos.astype(adt)
+    arr = R(dos.astype(adt)) if rcls != "native" else dos.astype(adt)
     forms = {"phased": pg, "unphased": ug, "array": arr}
     u_d_eff = None if kind == "A" else (numpy.zeros((p, t)) if u_d is None else u_d)
     het = O.hetind(dos, ploidy)
     # covariates / responses for predict and score
     X = numpy.concatenate([numpy.ones((n, 1)), g.normal(size=(n, q - 1))], axis=1)
+    if rcls != "native":
+        X = R(X)
     # ---------------- oracle
     b0 = O.intercept(beta)
     bvpart = O.marker_part(dos, u_a)
@@ -581,7 +673,7 @@ def case_model(ctx, c):
     if ptform == "object/arbitrary location+scale":
         Y = psc[None, :] * ((Y - ploc[None, :]) / psc[None, :]) + ploc[None, :]   # the values the object stands for
         sse, sst = O.rsq(Y, exp["predict"])
-    Yobj = Y
+    Yobj = Y if rcls == "native" else R(Y)
     if ptform != "array":
         try:
             Yobj = mk_pheno(ptform, Y, taxa, taxa_grp, trait, ploc, psc)
@@ -602,7 +694,7 @@ def case_model(ctx, c):
             "var_a": O.tol(S2), "bulmer": bultol, "score": r2tol, "fafreq": O.tol(1.0), "dafreq": O.tol(1.0)}
     zcls = "genic variance zero" if bool(vazero.any()) else "genic variance positive"
     wit0 = {"case": c, "ntaxa": n, "nmarker": p, "ploidy": ploidy, "genotype_class": gcls, "effect_class": ucls,
-            "dominance_class": dcls, "nfixed": q, "ntrait": t, "ploidy_x_ntaxa": tot}
+            "dominance_class": dcls, "nfixed": q, "ntrait": t, "ploidy_x_ntaxa": tot, "array_representation": rcls}
 
     def judge(name, fname, got, site):
         """Compare one collected output with the oracle; returns True when the output is usable for cross-form checks."""
@@ -654,6 +746,7 @@ def case_model(ctx, c):
 
     # ---------------- drive every form
     res = {}
+    twin = [None]
     held = []   # every raw output is kept until the end of the case and re-judged there (C04.history)
     for fname, F in forms.items():
         dom_ok = not (fname == "array" and kind == "AD" and ploidy != 2)
@@ -668,6 +761,22 @@ def case_model(ctx, c):
             site = "TrueBreedingValue.estimate"
         for f in bad_forms:
             ctx.raised("%s(%s)" % (site, "array" if f == "array" else "genotype matrix"), have[f])
+        if rcls != "native":
+            if bad_forms and not ok_forms:
+                if twin[0] is None:
+                    try:
+                        KEEP_REPR[0] = False
+                        twin[0] = collect(mk_model(kind, beta, u_misc, u_a, u_d, trait), mk_phased(mat, taxa, taxa_grp, vmeta), "phased",
+                                          ploidy, True, numpy.array(X), None if not score_ok else numpy.array(Y), has_misc)
+                    except Exception:
+                        twin[0] = {}
+                    finally:
+                        KEEP_REPR[0] = True
+                if name in twin[0] and not isinstance(twin[0][name], Exception):
+                    ctx.violation("C04.returns", site, "accepts every in-memory representation of the same values (raised %s)"
+                                  % type(have[bad_forms[0]]).__name__, rcls, witness=dict(wit0, output=name, raised=brief(have[bad_forms[0]])),
+                                  coords=coords)
+            ctx.ok("C04.returns")
         if ok_forms and bad_forms:  # equivalence policy: one form raising while another succeeds
             ctx.violation("C04.forms.input", site, "raises for one input form, succeeds for another",
                           "%s/%s raises" % (icls_in, "array" if "array" in bad_forms else "genotype matrix"),
@@ -919,6 +1028,8 @@ def case_model(ctx, c):
               "model, inputs and fresh predictions unaffected when the caller overwrites earlier results", icls_in, witness=wit0, coords=coords)
     # (4) coefficients replaced on the living model: every later answer follows the current coefficients
     how = str(g.choice(["setter", "in place"]))
+    if not (model.u_a.flags.writeable and model.beta.flags.writeable):
+        how = "setter"      # the caller cannot edit read-only coefficient arrays in place
     u_new = gen_effects(g, str(g.choice(["gauss", "ints", "gauss-zeros", "negative"])), p, t, fixed)
     b_new = g.normal(size=(q, t)) * 5
     try:
@@ -1065,10 +1176,25 @@ def case_fit(ctx, c):
                     "genotype_class": zcls, "response_class": ycls, "entry": entry, "record_labels": lcls, "response_container": ptform if entry != "numpy" else "array",
                     "Z_head": Z[:4, :8].tolist(), "Y_head": Y[:4].tolist()})
     Ytrain = Y
+    gr = ctx.rng("repr", c)
+    rcls = str(gr.choice(REPRS)) if (entry == "numpy" and gr.random() < 0.35) else "native"
     del _REC[:]
     try:
         if entry == "numpy":
-            m = rrBLUPModel0.fit_numpy(Y.copy(), None, Z.astype(zdt), trait=trait)
+            if rcls == "native":
+                m = rrBLUPModel0.fit_numpy(Y.copy(), None, Z.astype(zdt), trait=trait)
+            else:
+                try:
+                    m = rrBLUPModel0.fit_numpy(represent(gr, Y, rcls), None, represent(gr, Z.astype(zdt), rcls), trait=trait)
+                    ctx.ok("C04.returns")
+                except Exception as e:
+                    del _REC[:]
+                    m = rrBLUPModel0.fit_numpy(Y.copy(), None, Z.astype(zdt), trait=trait)   # native arrays are accepted
+                    ctx.raised("rrBLUPModel0.fit_numpy[%s]" % rcls, e)
+                    ctx.violation("C04.returns", "rrBLUPModel0.fit_numpy", "accepts every in-memory representation of the same values "
+                                  "(raised %s)" % type(e).__name__, rcls, what="fit_numpy raised %s: %s" % (type(e).__name__, str(e)[:160]),
+                                  witness={"case": c, "array_representation": rcls, "dtype": zdt}, coords=coords)
+                    ctx.ok("C04.returns")
         else:
             ytaxa = None if lcls in ("no names", "names on genotypes only") else taxa
             ztaxa = None if lcls in ("no names", "names on responses only") else taxa
